@@ -114,6 +114,11 @@ class Substitutor(SchemaVisitor[GenericSchema]):
         if len(value) > 0 and all(is_ellipsis(x) for x in value):
             raise SubstitutionError("Can't substitute all ...")
 
+        if schema.props.elements is Nil:
+            for index, val in enumerate(value):
+                if is_ellipsis(val) and (index != 0) and (index != len(value) - 1):
+                    raise SubstitutionError("`...` must be first or last element")
+
         if (schema.props.elements is Nil) and (schema.props.type is Nil):
             elements = []
             for val in value:
@@ -169,6 +174,8 @@ class Substitutor(SchemaVisitor[GenericSchema]):
         keys: Dict[Any, Any] = {}
         if schema.props.keys is Nil or (len(schema.props.keys) == 1 and ... in schema.props.keys):
             for key, val in value.items():
+                if is_ellipsis(key) != is_ellipsis(val):
+                    raise SubstitutionError("Can't substitute ...")
                 keys[key] = (... if is_ellipsis(val) else self._from_native(val), False)
             if (schema.props.keys is not Nil) and (... in schema.props.keys):
                 keys[...] = (..., False)
